@@ -123,6 +123,29 @@ def problems(group):
             pass
     if group in ('planner', 'all'):
         W, RST = {}, set()
+        # methods of QueryPlanner that only __init__ (transitively) calls are part of construction
+        init_only = set()
+        try:
+            qp = repo.find_class('mindsdb_sql.planner.query_planner', 'QueryPlanner')
+            meths = {f.name: f for f in qp.body if isinstance(f, ast.FunctionDef)}
+            calls = {n_: {c.func.attr for c in ast.walk(f) if isinstance(c, ast.Call) and isinstance(c.func, ast.Attribute) and isinstance(c.func.value, ast.Name) and c.func.value.id == 'self'} for n_, f in meths.items()}
+            reach, work = set(), ['__init__']
+            while work:
+                x = work.pop()
+                for y in calls.get(x, ()):
+                    if y in meths and y not in reach:
+                        reach.add(y)
+                        work.append(y)
+            others = set()
+            for m in mods:
+                if not m.startswith('mindsdb_sql'):
+                    continue
+                for fn in ast.walk(repo.module_ast(m)):
+                    if isinstance(fn, ast.FunctionDef) and not (fn.name == '__init__' or fn.name in reach):
+                        others |= {c.func.attr for c in ast.walk(fn) if isinstance(c, ast.Call) and isinstance(c.func, ast.Attribute)}
+            init_only = {x for x in reach if x not in others}
+        except Exception:
+            init_only = set()
         for m in mods:
             if not m.startswith('mindsdb_sql.planner'):
                 continue
@@ -160,7 +183,7 @@ def problems(group):
                                 continue
                             if cls.name == 'QueryPlanner' and fn.name == 'from_query' and isinstance(n, ast.Assign):
                                 RST.add(attr)
-                            elif not (cls.name == 'QueryPlanner' and fn.name == '__init__'):
+                            elif not (cls.name == 'QueryPlanner' and (fn.name == '__init__' or fn.name in init_only)):
                                 W.setdefault(attr, []).append(f'{m}:{cls.name}.{fn.name} (line {n.lineno})')
         for attr, sites in sorted(W.items()):
             if attr not in RST and attr not in PROTOCOL_ATTRS:
